@@ -40,10 +40,13 @@ class Spec:
         else:
             self.hit_events = ["logicblock_%s_hit" % self.name]
         self.complete_events = list(b.get("complete_events") or ["logicblock_%s_complete" % self.name])
-        self.roles = {}      # external event -> list of (role, arg) in handler order irrelevant (one role per event)
+        # external event -> list of (role, arg, delay_s); one role per event.  delay_s > 0: delayed control event
+        # (`count_events: {ev: 500ms}`), each posted event is applied on its own `delay` after it was posted
+        self.roles = {}
+        delays = b.get("delays") or {}
         for role, evs in (b.get("ev") or {}).items():
             for e in evs:
-                self.roles.setdefault(e, []).append((role, None))
+                self.roles.setdefault(e, []).append((role, None, (delays.get(e) or 0) / 1000.0))
         if self.type == "counter":
             self.direction = b.get("dir", "up")
             hv = b.get("interval", 1)
@@ -53,7 +56,7 @@ class Spec:
             self.start = b.get("start", 0)
             self.goal = b.get("goal")
             for action, e, v in (b.get("ctrl") or []):
-                self.roles.setdefault(e, []).append((action, v))
+                self.roles.setdefault(e, []).append((action, v, 0.0))
         else:
             self.steps = [list(s) for s in b["steps"]]
             self.n = len(self.steps)
@@ -62,7 +65,7 @@ class Spec:
                 for e in s:
                     if e not in seen:
                         seen.add(e)
-                        self.roles.setdefault(e, []).append(("step", None))
+                        self.roles.setdefault(e, []).append(("step", None, 0.0))
         self.out_events = set(self.hit_events) | set(self.complete_events) | {self.timeout_event}
 
     def start_value(self):
@@ -83,7 +86,7 @@ class Spec:
 
 class St:
     __slots__ = ("alive", "enabled", "completed", "value", "win", "tmo", "out", "notes", "init_en", "saved",
-                 "stale_win", "stale_tmo", "restored")
+                 "stale_win", "stale_tmo", "restored", "pend")
 
     def __init__(self):
         self.alive = False
@@ -99,6 +102,7 @@ class St:
         self.stale_win = None
         self.stale_tmo = None
         self.restored = None
+        self.pend = ()       # pending delayed control events: tuple of (deadline, role, arg, event)
 
     def copy(self):
         c = St()
@@ -111,12 +115,14 @@ class St:
 
     def key(self):
         return (self.alive, self.enabled, self.completed, self.value, self.win, self.tmo, tuple(self.out),
-                self.init_en, tuple(sorted(self.saved.items())), self.stale_win, self.stale_tmo)
+                self.init_en, tuple(sorted(self.saved.items())), self.stale_win, self.stale_tmo,
+                tuple(sorted(self.pend, key=repr)))
 
     def public(self):
         return {"alive": self.alive, "enabled": self.enabled, "completed": self.completed,
                 "value": list(self.value) if isinstance(self.value, tuple) else self.value,
-                "window_until": self.win, "timeout_at": self.tmo}
+                "window_until": self.win, "timeout_at": self.tmo,
+                "pending_delayed": [[p[0], p[1], p[3]] for p in self.pend]}
 
 
 def _flat(states, fn):
@@ -316,65 +322,114 @@ def m_seq_event(sp, s, t, e):
     return [x for x, _ in sts]
 
 
+def apply_role(sp, s, t, role, arg, e):
+    """Apply one control/hit role to one candidate state at time t -> list of successor states."""
+    if role == "count":
+        return m_count(sp, s, t)
+    if role == "enable":
+        return m_enable(sp, s, t) if s.alive else [s]
+    if role == "disable":
+        return m_disable(sp, s, t) if s.alive else [s]
+    if role == "reset":
+        return m_reset(sp, s, t) if s.alive else [s]
+    if role == "restart":
+        return _flat(m_reset(sp, s, t), lambda y: m_enable(sp, y, t)) if s.alive else [s]
+    if role == "step":
+        return m_acc_event(sp, s, t, e) if sp.type == "accrual" else m_seq_event(sp, s, t, e)
+    if role == "random":
+        return m_acc_random(sp, s, t)
+    if role in ("add", "subtract", "jump"):
+        return m_ctrl(sp, s, t, role, arg)
+    return [s]
+
+
 def apply_event(sp, s, t, e):
-    """Apply one external event to one candidate state -> list of successor states."""
+    """One external event posted at t -> list of successor states.
+
+    A delayed control event is not applied now: it becomes its own pending application at t + delay (every posted
+    event separately).  A mode block whose mode is not running has no handler registered: nothing is scheduled."""
     sts = [s]
-    for role, arg in sp.roles.get(e, ()):
-        if role == "count":
-            f = lambda x: m_count(sp, x, t)
-        elif role == "enable":
-            f = lambda x: m_enable(sp, x, t) if x.alive else [x]
-        elif role == "disable":
-            f = lambda x: m_disable(sp, x, t) if x.alive else [x]
-        elif role == "reset":
-            f = lambda x: m_reset(sp, x, t) if x.alive else [x]
-        elif role == "restart":
-            f = lambda x: _flat(m_reset(sp, x, t), lambda y: m_enable(sp, y, t)) if x.alive else [x]
-        elif role == "step":
-            f = (lambda x: m_acc_event(sp, x, t, e)) if sp.type == "accrual" else (lambda x: m_seq_event(sp, x, t, e))
-        elif role == "random":
-            f = lambda x: m_acc_random(sp, x, t)
-        elif role in ("add", "subtract", "jump"):
-            f = lambda x, role=role, arg=arg: m_ctrl(sp, x, t, role, arg)
+    for role, arg, delay in sp.roles.get(e, ()):
+        if delay > 0:
+            for x in sts:
+                if x.alive:
+                    x.pend = x.pend + ((t + delay, role, arg, e),)
+                    x.notes.append("delayed_scheduled")
+                else:
+                    x.notes.append("delayed_not_alive")
         else:
-            continue
-        sts = _flat(sts, f)
+            sts = _flat(sts, lambda x, role=role, arg=arg: apply_role(sp, x, t, role, arg, e))
     return sts
 
 
 # ------------------------------------------------------------------------------------------- timers
+def _fire(sp, x, item):
+    d, kind, p = item
+    if kind == "win":
+        x.win = None
+        x.notes.append("window_closed")
+        return [x]
+    if kind == "tmo":
+        x.out.append((d, sp.timeout_event, None))
+        x.notes.append("timeout_fired")
+        x.tmo = None
+        return m_reset(sp, x, d, from_timer=True)
+    lst = list(x.pend)
+    lst.remove(p)
+    x.pend = tuple(lst)
+    x.notes.append("delayed_applied")
+    return apply_role(sp, x, d, p[1], p[2], p[3])
+
+
+class ModelOverflow(Exception):
+    """Too many permitted successors: the monitor gives up on this block (never a verdict)."""
+
+
 def run_timers(sp, s, t_to):
-    """Fire every timer of s due up to t_to.  A timer within EPS of t_to may or may not have fired yet."""
-    done, stack = [], [s]
-    guard = 0
-    while stack:
-        guard += 1
-        if guard > 5000:
+    """Fire everything of s that is due up to t_to in time order: hit-window end, timeout, delayed control events.
+
+    Something due within EPS of t_to may or may not have fired yet; things due within EPS of each other fire in
+    either order (identical delayed applications are interchangeable)."""
+    done, frontier = [], [s]
+    rounds = 0
+    while frontier:
+        rounds += 1
+        if rounds > 20000:
             raise RuntimeError("c18 model: timer loop")
-        x = stack.pop()
-        if not x.alive:
-            done.append(x)
-            continue
-        cands = [(d, k) for d, k in ((x.win, "win"), (x.tmo, "tmo")) if d is not None]
-        if not cands:
-            done.append(x)
-            continue
-        d, k = min(cands)
-        if d > t_to + EPS:
-            done.append(x)
-            continue
-        if d >= t_to - EPS:
-            done.append(x.copy())      # not fired yet (fires right after the next burst)
-            # a second timer may also be due: keep it simple, the un-fired copy keeps both pending
-        if k == "win":
-            x.win = None
-            x.notes.append("window_closed")
-            stack.append(x)
-        else:
-            x.out.append((d, sp.timeout_event, None))
-            x.notes.append("timeout_fired")
-            x.tmo = None
-            stack.extend(m_reset(sp, x, d, from_timer=True))
+        nxt = []
+        for x in frontier:
+            items = []
+            if x.alive:
+                if x.win is not None:
+                    items.append((x.win, "win", None))
+                if x.tmo is not None:
+                    items.append((x.tmo, "tmo", None))
+            for p in x.pend:
+                items.append((p[0], "pend", p))
+            if not items:
+                done.append(x)
+                continue
+            dmin = min(i[0] for i in items)
+            if dmin > t_to + EPS:
+                done.append(x)
+                continue
+            if dmin >= t_to - EPS:
+                done.append(x.copy())      # not fired yet (fires right after the next burst)
+            reps, seen = [], set()
+            for i in items:
+                if i[0] <= dmin + EPS:
+                    k = (i[1], i[2][1:] if i[2] else None)
+                    if k not in seen:
+                        seen.add(k)
+                        reps.append(i)
+            if len(reps) > 1:
+                x.notes.append("timer_tie")
+            for n, it in enumerate(reps):
+                y = x if n == len(reps) - 1 else x.copy()
+                nxt.extend(_fire(sp, y, it))
+        frontier = dedupe(nxt) if len(nxt) > 1 else nxt
+        if len(frontier) + len(done) > 4 * MAX_CANDS:
+            raise ModelOverflow()
     return done
 
 
@@ -400,6 +455,9 @@ def m_mode_stop(sp, s, t, player):
     if sp.persist:
         s.saved[player] = (s.enabled, s.completed, s.value)
     s.alive = False
+    if s.pend:
+        s.notes.append("delayed_dropped_by_mode_stop")
+    s.pend = ()          # Mode.stop() clears the mode's delays: a pending delayed control event is never applied
     s.stale_win, s.stale_tmo = s.win, s.tmo
     s.win = s.tmo = None
     s.enabled = s.completed = False
